@@ -649,3 +649,65 @@ def check_xy_symmetry(ctx, rule, mod, exceptions, floor):
     if n < floor:
         raise AnalysisError('%s: only %d x/y pairs found in %s (expected at least %d)' % (rule, n, mod.name, floor))
     return n
+
+
+# ---------------------------------------------------------------------------------------
+# R-NAN: range membership is tested positively (lo <= x and x <= hi); "outside" tests (x < lo or x > hi) let NaN through
+def _cmp_parts(e):
+    if isinstance(e, ast.Compare) and len(e.ops) == 1:
+        return e.left, e.ops[0], e.comparators[0]
+    return None
+
+
+def range_tests(tree):
+    """(kind, node): 'inside' for lo<=x & x<=hi style conjunctions, 'outside' for x<lo | x>hi style disjunctions on one operand."""
+    out = []
+    for n in ast.walk(tree):
+        pair = None
+        if isinstance(n, ast.BoolOp) and len(n.values) == 2:
+            pair = (n.values[0], n.values[1], 'and' if isinstance(n.op, ast.And) else 'or')
+        elif isinstance(n, ast.BinOp) and isinstance(n.op, (ast.BitAnd, ast.BitOr)):
+            pair = (n.left, n.right, 'and' if isinstance(n.op, ast.BitAnd) else 'or')
+        if not pair:
+            continue
+        a, b = _cmp_parts(pair[0]), _cmp_parts(pair[1])
+        if not a or not b:
+            continue
+
+        def norm_(c):
+            l, op, r = c
+            # orient as  <operand> <op> <bound>
+            return (unparse(l), type(op).__name__, unparse(r)), (unparse(r), {'Lt': 'Gt', 'LtE': 'GtE', 'Gt': 'Lt', 'GtE': 'LtE'}.get(type(op).__name__), unparse(l))
+        for x in norm_(a):
+            for y in norm_(b):
+                if x[1] is None or y[1] is None or x[0] != y[0] or x[2] == y[2]:
+                    continue
+                lower = {x[1], y[1]} & {'Gt', 'GtE'}
+                upper = {x[1], y[1]} & {'Lt', 'LtE'}
+                if lower and upper:
+                    if pair[2] == 'and':
+                        out.append(('inside', n))
+                    else:
+                        out.append(('outside', n))
+    seen, res = set(), []
+    for k, n in out:
+        if id(n) not in seen:
+            seen.add(id(n))
+            res.append((k, n))
+    return res
+
+
+def check_nan_safe_ranges(ctx, rule, mods, floor):
+    n_in = 0
+    for mod in mods:
+        for kind, node in range_tests(mod.tree):
+            if kind == 'inside':
+                n_in += 1
+                continue
+            ctx.ob(rule, '%s `%s`' % (mod.name, unparse(node)[:80]), 'range membership is decided by a positive test (NaN is never inside)', False,
+                   detail='%s tests `%s`, i.e. whether the value is OUTSIDE the range: a NaN (missing value) is neither below nor above, so '
+                          'it is not rejected and ends up selected; the sibling range tests of these modules are written as '
+                          '`lo <= x and x <= hi`, which NaN fails' % (mod.name, unparse(node)), where='%s:%d' % (mod.relpath, node.lineno))
+    ctx.ob(rule, 'positive range tests', '%d range tests are written positively' % n_in, True, nontrivial=False)
+    if n_in < floor:
+        raise AnalysisError('%s: only %d positive range tests recognised (expected at least %d)' % (rule, n_in, floor))
